@@ -5,13 +5,14 @@
 # own except that a panic it provokes is a violation with a concrete input.
 cd "$(dirname "$0")/.."
 TIER=${1:-quick}
+OUT=/verif/out; [ -n "${GOVC_REPO:-}" ] && OUT="$GOVC_REPO.out"; mkdir -p "$OUT"; export OUT
 BUDGET=250; [ "$TIER" = thorough ] && BUDGET=6000
 START=$(date +%s.%N)
-mkdir -p out/replay/C17
-bin/govc check -prop C17 -tier "$TIER" > out/c17_govc.log 2>&1; RC=$?
-grep -E '^(VIOLATION|KNOWN-FINDING|ERROR|OBLIGATION|SUMMARY)' out/c17_govc.log
-rm -f out/c17_corpus.json
-C17_BUDGET=$BUDGET C17_OUT=$PWD/out/c17_corpus.json replay/overlay_test.sh pkg findings/C17/panic_corpus_test.go TestCorpusC17 -v -timeout 1200s > out/c17_corpus.log 2>&1; TRC=$?
+mkdir -p $OUT/replay/C17
+bin/govc check -prop C17 -tier "$TIER" > $OUT/c17_govc.log 2>&1; RC=$?
+grep -E '^(VIOLATION|KNOWN-FINDING|ERROR|OBLIGATION|SUMMARY)' $OUT/c17_govc.log
+rm -f $OUT/c17_corpus.json
+C17_BUDGET=$BUDGET C17_OUT=$OUT/c17_corpus.json replay/overlay_test.sh pkg findings/C17/panic_corpus_test.go TestCorpusC17 -v -timeout 1200s > $OUT/c17_corpus.log 2>&1; TRC=$?
 python3 - "$TIER" "$RC" "$TRC" "$START" <<'PY'
 import json, sys, time, os, re
 tier, rc, trc, start = sys.argv[1], int(sys.argv[2]), int(sys.argv[3]), float(sys.argv[4])
@@ -21,11 +22,11 @@ for l in open('known_findings.txt'):
     m = re.match(r'finding: property=C17 obligation=corpus:panic/(\S+)\s+(.*)', l)
     if m: known[m.group(1)] = m.group(2)
 viol = 0; rcx = 0; c = None
-log = open('out/c17_corpus.log').read() if os.path.exists('out/c17_corpus.log') else ''
+log = open(os.environ['OUT']+'/c17_corpus.log').read() if os.path.exists(os.environ['OUT']+'/c17_corpus.log') else ''
 crash = [l for l in log.split('\n') if l.startswith('panic:') or l.startswith('fatal error:')]
-path = os.path.abspath('out/replay/C17/corpus_panic.json')
-if os.path.exists('out/c17_corpus.json') and not crash:
-    c = json.load(open('out/c17_corpus.json'))
+path = os.path.abspath(os.environ['OUT']+'/replay/C17/corpus_panic.json')
+if os.path.exists(os.environ['OUT']+'/c17_corpus.json') and not crash:
+    c = json.load(open(os.environ['OUT']+'/c17_corpus.json'))
     sigs = c.get('panic_signatures') or {}
     new = {}
     for s, inputs in sigs.items():
@@ -56,6 +57,6 @@ ev['tier'] = tier
 ev['violations'] = int(ev.get('violations', 0)) + viol
 ev['wall_s'] = time.time() - start
 ev.setdefault('seed', 0); ev.setdefault('property_id', 'C17')
-json.dump(ev, open('evidence/C17.json','w'), indent=1)
+if not os.environ.get('GOVC_REPO'): json.dump(ev, open('evidence/C17.json','w'), indent=1)
 sys.exit(1 if (rc == 1 or viol) else (2 if (rc == 2 or rcx == 2) else 0))
 PY
